@@ -44,6 +44,8 @@ type lh struct {
 	onStep func() bool
 	// stateKey, if set, enables canonical-state pruning (E4): see runToCompletion.
 	stateKey func() string
+	// onDeliver, if set, sees every event right before it is delivered.
+	onDeliver func(p *sim.Pending)
 }
 
 type lhEvent struct {
@@ -193,6 +195,9 @@ func (l *lh) runToCompletion(sig string, done func() bool, maxSteps int) bool {
 		i := l.x.Choose(len(pend), vmc.Order, "deliver "+fmt.Sprint(labels))
 		l.step++
 		l.delivered = append(l.delivered, l.net.Label(pend[i]))
+		if l.onDeliver != nil {
+			l.onDeliver(pend[i])
+		}
 		l.net.Deliver(pend[i])
 	}
 }
